@@ -233,13 +233,14 @@ def _runner_exit(code=0):
 class SimFuture:
     def __init__(self, ex, fn, args, kwargs, name):
         self.ex, self.fn, self.args, self.kwargs, self.name = ex, fn, args, kwargs, name
-        self.done = False
+        self._done = False
         self.started = False
         self._result = None
         self._exc = None
+        self._callbacks = []
 
     def _run(self):
-        if self.done or self.started:
+        if self._done or self.started:
             return
         self.started = True
         self.ex.running.append(self)
@@ -249,17 +250,89 @@ class SimFuture:
             self._exc = e
         finally:
             self.ex.running.pop()
-        self.done = True
+        self._done = True
         self.ex.completed.append(self.name)
+        for cb in self._callbacks:
+            try:
+                cb(self)
+            except Exception:  # noqa: BLE001 - like concurrent.futures: callback errors are logged, not raised
+                pass
+
+    # ---- the rest of the concurrent.futures.Future interface
+    def done(self):
+        return self._done
+
+    def running(self):
+        return self.started and not self._done
+
+    def cancelled(self):
+        return False
+
+    def cancel(self):
+        return False
+
+    def exception(self, timeout=None):
+        try:
+            self.result()
+        except Exception:  # noqa: BLE001
+            pass
+        return self._exc
+
+    def add_done_callback(self, fn):
+        if self._done:
+            fn(self)
+        else:
+            self._callbacks.append(fn)
 
     def result(self, timeout=None):
         self.ex.hook("result")
-        if not self.done:
+        if not self._done:
             self.ex.run_before(self)
             self._run()
         if self._exc is not None:
             raise self._exc
         return self._result
+
+
+def _sim_as_completed(real):
+    def as_completed(fs, timeout=None):
+        fs = list(fs)
+        if not fs or not all(isinstance(f, SimFuture) for f in fs):
+            return real(fs, timeout)
+
+        def gen():
+            for f in [f_ for f_ in fs if f_._done]:
+                yield f
+            # the rest complete in the seeded order of their executor
+            for f in sorted((f_ for f_ in fs if not f_._done), key=lambda f_: f_.ex.f._prio(f_.name)[1]):
+                if not f._done:
+                    try:
+                        f.result()
+                    except Exception:  # noqa: BLE001 - the exception stays in the future
+                        pass
+                yield f
+        return gen()
+    return as_completed
+
+
+def _sim_wait(real):
+    def wait(fs, timeout=None, return_when="ALL_COMPLETED"):
+        fs = list(fs)
+        if not fs or not all(isinstance(f, SimFuture) for f in fs):
+            return real(fs, timeout, return_when)
+        import concurrent.futures as cf
+
+        order = sorted((f_ for f_ in fs if not f_._done), key=lambda f_: f_.ex.f._prio(f_.name)[1])
+        for f in order:
+            if not f._done:
+                try:
+                    f.result()
+                except Exception:  # noqa: BLE001
+                    pass
+            if return_when == "FIRST_COMPLETED" or (return_when == "FIRST_EXCEPTION" and f._exc is not None):
+                break
+        return cf._base.DoneAndNotDoneFutures({f_ for f_ in fs if f_._done}, {f_ for f_ in fs if not f_._done})
+    return wait
 
 
 class SimExecutorFactory:
@@ -294,13 +367,13 @@ class SimExecutorFactory:
                 continue
             cur = ex.running[-1]
             for other in sorted(ex.pending, key=lambda x: x.name):
-                if other.started or other.done or other is cur:
+                if other.started or other._done or other is cur:
                     continue
                 h = hashlib.sha256(f"{self.seed}/overlap/{cur.name}/{other.name}".encode()).digest()
                 if h[0] % 3 == 0:
                     self.overlaps += 1
                     other._run()
-            ex.pending = [p_ for p_ in ex.pending if not p_.done]
+            ex.pending = [p_ for p_ in ex.pending if not p_._done]
 
 
 class _SimExecutor:
@@ -336,9 +409,9 @@ class _SimExecutor:
         mine = self.f._prio(fut.name)[1]
         for other in sorted(self.pending, key=lambda x: self.f._prio(x.name)[1]):
             ph, pr = self.f._prio(other.name)
-            if other is not fut and not other.done and ph == 1 and pr < mine:
+            if other is not fut and not other._done and ph == 1 and pr < mine:
                 other._run()
-        self.pending = [p for p in self.pending if not p.done and p is not fut]
+        self.pending = [p for p in self.pending if not p._done and p is not fut]
 
 
 # ---------------------------------------------------------------------------------- progress bars / interrupts
@@ -462,6 +535,19 @@ def pipeline_seams(fake: FakeExec, spawn: SimSpawn | None = None, executor: SimE
         patches.append((job, "run", spawn))
     if executor is not None:
         patches.append((job, "ThreadPoolExecutor", executor))
+        # whatever way jobmap collects its futures (result() in submission order, as_completed, wait): simulated futures
+        # complete in the seeded order
+        import concurrent.futures as _cf
+
+        sim_ac, sim_w = _sim_as_completed(_cf.as_completed), _sim_wait(_cf.wait)
+        patches += [(_cf, "as_completed", sim_ac), (_cf, "wait", sim_w)]
+        for n_, v_ in list(vars(job).items()):
+            if v_ is _cf.as_completed:
+                patches.append((job, n_, sim_ac))
+            elif v_ is _cf.wait:
+                patches.append((job, n_, sim_w))
+            elif v_ is _cf.ThreadPoolExecutor and n_ != "ThreadPoolExecutor":
+                patches.append((job, n_, executor))
     patches.append((job, "tqdm", tqdm or SimTqdmFactory()))
     # tempfile draws the names of scratch directories from os.urandom: one more source of nondeterminism (the names end
     # up in tracebacks, listings, logs).  Behind the seam they are sim000000, sim000001, ... per installation.
